@@ -378,6 +378,9 @@ def run(tier, out):
     # the agent's own view: hosted downlinks and join lanes driven by the real agent task (configuration E)
     from checks import e_join
     e_join.run_e(tier, out, os.path.join(wd, "ejoin"), prop="C08")
+    # the channel that carries the agent's local sets to a hosted value downlink (CircularBuffer.tla, K level)
+    from checks import k_circbuf
+    k_circbuf.run_k(tier, out, os.path.join(wd, "kcirc"), prop="C08")
     core.log("[C08] replayed %d cases (%d inputs) on the real downlinks: conform=%d divergent=%d (known=%d drift=%d rejected=%d); "
              "P evaluated %d cases / %d events in %.1fs; client-vs-hosted pairs=%d mismatches=%d" % (
                  st["cases"], st["steps"], st["conform"], st["divergent"], st["known"], st["drift"], st["rejected"],
@@ -422,6 +425,9 @@ def replay(path, out):
     if obj.get("component") == "e_join":
         from checks import e_join
         return e_join.replay(path, out)
+    if obj.get("component") in ("circbuf", "circbuf-stress"):
+        from checks import k_circbuf
+        return k_circbuf.replay(path, out)
     wd = core.workdir(PROP + "_replay")
     core.build_harness("h_runtime", "dlstate")
     pairs = [(obj["case"], None)]
